@@ -221,6 +221,12 @@ func (w *worker) runParse(c *parseCase, raw []byte) {
 			}
 			continue
 		}
+		if P["C18"] && c.Out.Cls == "ok" && o.Cls != "ok" {
+			// a sentence of Render (a spelling the grammar declares insignificant) must parse
+			w.count("C18:sentences", 1)
+			w.viol("C18", "spelling-rejected", text, "config="+cf.name, "a spelling variant of a valid path is rejected: "+o.Msg, "sentence", raw)
+			continue
+		}
 		if !P["C17"] {
 			continue
 		}
